@@ -148,6 +148,7 @@ pub struct Stats {
     pub sink_error: bool,
     pub checksum_alone: bool,
     pub one_byte_source: bool,
+    pub offered_past_frame_end: bool,
 }
 
 fn wrapped(dec: &FrameDecoder) -> bool {
@@ -349,6 +350,14 @@ pub fn execute(frame: &[u8], frame_len: usize, window: u64, program: &Program, s
                     _ => cuts.extend([frame_len - 3, frame_len - 3, frame_len - 1, frame_len]),
                 }
             }
+            // bytes that follow the frame in the caller's buffer (another frame, anything): the last
+            // offer reaches past the end of the frame - the call must take the frame's bytes only
+            if frame.len() > frame_len && *tail_split % 2 == 0 {
+                if let Some(last) = cuts.last_mut() {
+                    *last = frame.len();
+                }
+                st.offered_past_frame_end = true;
+            }
             let mut pos = 0usize;
             let mut ci = 0usize;
             let mut ti = 0usize;
@@ -425,9 +434,8 @@ pub fn check_with(case: &Case, ctx: &mut CaseCtx, c08: bool) -> CaseResult {
     }
     let rh = refz::frame_header(&built.frame).map_err(|e| Failure::new("machinery", e))?;
     let mut st = Stats::default();
-    // decode_from_to is given slices of the frame only (it has no notion of a reader position);
-    // reader-based programs see the garbage behind the frame
-    let input: &[u8] = if matches!(case.program, Program::FromTo { .. }) { &src[..frame_len] } else { &src };
+    // decode_from_to programs see the bytes behind the frame only in their last offer (see execute)
+    let input: &[u8] = &src;
     let (out, dec) = execute(input, frame_len, rh.window_size, &case.program, &mut st).map_err(|mut f| {
         f.msg = format!("{}; frame {} ({} bytes, {}), program {:?}", f.msg, hexhead(&built.frame), frame_len, built.source, case.program);
         f
@@ -448,6 +456,7 @@ pub fn check_with(case: &Case, ctx: &mut CaseCtx, c08: bool) -> CaseResult {
         Program::Streaming { .. } => "prog:streaming",
         Program::FromTo { .. } => "prog:decode_from_to",
     });
+    ctx.feat_if(st.offered_past_frame_end, "from_to:last_offer_reaches_past_the_frame_end");
     ctx.feat_if(st.partial_sink, "sink:partial");
     ctx.feat_if(st.sink_error, "sink:error_then_retry");
     ctx.feat_if(st.checksum_alone, "from_to:checksum_split");
